@@ -74,6 +74,12 @@ pub fn run_c07(ctx: &mut Ctx) {
         let mech = Mech::ShortTerm(*rng.pick(&[None, None, Some(false), Some(true)]));
         let cfg = gen_cfg(rng, Some(mech), &[10]);
         ctx.count(if cfg.reliable.is_some() { "c07.reliable-clients" } else { "c07.unreliable-clients" });
+        // a third of the applications hand over attribute lists that already contain
+        // credential / integrity attributes (cloned templates): they must be overridden
+        let p = Profile { rich_app: case % 3 == 0, ..p.clone() };
+        if p.rich_app {
+            ctx.count("c07.clients-with-prepopulated-attribute-lists");
+        }
         if let Some(sim) = run_walk(ctx, rng, cfg, &p, &[]) {
             sample_history(ctx, &sim, case);
             ctx.eval(Some(history_hash(&sim)));
@@ -380,6 +386,7 @@ pub fn run_c10(ctx: &mut Ctx) {
     ctx.cases("client", n, |ctx, case, rng| {
         let mut cfg = gen_cfg(rng, None, &[10]);
         cfg.fingerprint = true;
+        let p = Profile { rich_app: case % 3 == 0, ..p.clone() };
         let prefix: Vec<(u8, u8, bool)> = if cfg.mech == Mech::LongTerm && rng.bool() { vec![(0, rng.below(5) as u8, false), (1, 0, false)] } else { vec![] };
         if let Some(sim) = run_walk(ctx, rng, cfg, &p, &prefix) {
             sample_history(ctx, &sim, case);
